@@ -162,6 +162,24 @@ def judge(ctx, s, p, kw):
             sd = float((mag - mag_exp).std())
             lo, hi = chi_bounds(3 * N)
             ctx.ok("empirical magnetometer noise matches the reported mag_noise", lo <= sd / float(s.mag_noise) <= hi, {"empirical": sd, "reported": float(s.mag_noise), "bounds": [lo, hi]})
+    # the two secondary magnetometer outputs (dip-only reference in the north-down plane; the reference in ENU axes) with their own reference vectors
+    for suf in ("_nd", "_enu"):
+        arr, refv = getattr(s, "magnetometers" + suf, None), getattr(s, "reference_magnetic_vector" + suf, None)
+        if arr is None or refv is None:
+            ctx.ok("secondary magnetometer output magnetometers%s and its reference exist" % suf, False)
+            continue
+        arr, refv = np.array(arr, float), np.array(refv, float)
+        exp2 = np.array([R[i].T @ refv for i in range(N)])
+        if norm_mag:
+            exp2 = exp2 / np.linalg.norm(exp2, axis=1, keepdims=True)
+        if mn == 0.0:
+            ctx.le("mag_noise = 0: magnetometers%s[i] = R_i^T reference_magnetic_vector%s" % (suf, suf), np.abs(arr - exp2).max() / max(np.abs(exp2).max(), 1e-300), 1e-13,
+                   {"reference": refv}, route=None)
+        elif not norm_mag:
+            sd2 = float((arr - exp2).std())
+            lo, hi = chi_bounds(3 * N)
+            ctx.ok("empirical noise of magnetometers%s matches the reported mag_noise" % suf, lo <= sd2 / float(s.mag_noise) <= hi, {"empirical": sd2, "reported": float(s.mag_noise), "bounds": [lo, hi]})
+    ctx.le("reference_magnetic_vector_enu is the reference vector in ENU axes", np.abs(np.array(s.reference_magnetic_vector_enu, float) - np.array([m_ref[1], m_ref[0], -m_ref[2]])).max(), 0.0)
     if norm_mag:
         ctx.le("normalised magnetometer rows have unit norm", np.abs(np.linalg.norm(mag, axis=1) - 1).max(), 1e-12)
     # --- gyroscope
